@@ -165,6 +165,49 @@ def assign_def(rng, is_async, payload, concrete, dynamic=True):
     d.append(('events', [('go', ev)], True))
     return d
 
+def hier_def(rng, is_async=False, concrete=False, dynamic=True):
+    """nested superstates (depth 2-3) with leaves before and after the nested blocks; every event
+    has one transition whose source is a (preferably nested) superstate or a single leaf"""
+    names = rng.sample(STATE_POOL, 8)
+    sups = rng.sample(SUPER_POOL, 4)
+    it = iter(names)
+    def leaf(top=False):
+        n = next(it)
+        return ('leaf' if top else 'state', n, (['D'] if rng.random() < 0.3 else None))
+    inner2 = ('sup', sups[2], None, [leaf(), leaf()])
+    inner_body = [leaf(), inner2, leaf()] if rng.random() < 0.5 else [leaf(), leaf()]
+    if rng.random() < 0.5:
+        inner_body.insert(rng.randrange(len(inner_body) + 1), ('initial', [b[1] for b in inner_body if b[0] == 'state'][-1]))
+    inner = ('sup', sups[1], None, inner_body)
+    outer_body = [leaf(), inner, leaf()]
+    rng.shuffle(outer_body) if rng.random() < 0.3 else None
+    outer = ('sup', sups[0], None, outer_body)
+    forest = [leaf(True), outer]
+    if rng.random() < 0.5:
+        forest.append(leaf(True))
+    used_sups = [sups[0], sups[1]] + ([sups[2]] if inner2 in inner_body else [])
+    leaves = D._leaf_names(forest)
+    blocks = []
+    enames = rng.sample(EVENT_POOL, 3)
+    for i, en in enumerate(enames):
+        src = used_sups[-1 - (i % len(used_sups))] if i < 2 else rng.choice(leaves)
+        tgt = rng.choice(leaves + used_sups)
+        items = [('transition', [('from', [src], False), ('to', tgt)])]
+        if rng.random() < 0.3:
+            items.append(('guards', [rng.choice(hook_names('guards', False))], True))
+        blocks.append((en, items))
+    d = [('name', 'Player')]
+    if concrete:
+        d.append(('context', ['Ctx']))
+    if is_async:
+        d.append(('async', True))
+    if dynamic:
+        d.append(('dynamic', True))
+    d.append(('initial', rng.choice(leaves)))
+    d.append(('states', forest))
+    d.append(('events', blocks, True))
+    return d
+
 # ---------------------------------------------------------------------------------------
 # machine facts from the Lean driver
 
